@@ -1,32 +1,40 @@
 (** C16 - the positive half: compiler correctness of galaxy's NetworkPolicy translation on the fragment where
     galaxy is right (DESIGN.md appendix D).
 
-    [enforces_partial_l]: for every name hash H that does not collide on the policy keys and on the pod keys of the
-    nodes the flow crosses ([hash_distinct], as in C15), every cluster c in the fragment [frag c], every flow f with
-    32-bit addresses ([flow_ok]) and at most one hooked end per node ([one_hooked c f]):
+    [enforces_partial_g_l]: for every name hash H that does not collide on the policy keys and on the pod keys of the
+    nodes the flow crosses ([hash_distinct], as in C15), every cluster c in the fragment [frag_g c], every flow f with
+    32-bit addresses ([flow_ok]), without cross-talk ([no_cross c f]) and with at most one hooked end per node
+    ([one_hooked c f]):
         galaxy_allows H c f = k8s_allows c f
     i.e. walking FORWARD of the kernels PolicyManager.Run installs (Model/Policy.v [run] from the empty kernel) on the
     nodes of the two ends accepts the new connection exactly when the NetworkPolicy reference allows it.
-    [node_enforces] is the per-node statement, [enforces_partial_inj] the corollary for an injective H.
+    [node_enforces] is the per-node statement, [policy_chain_accepts] the characterisation of one policy chain,
+    [enforces_partial_l] the corollary for the simple fragment [frag] (one direction per policy, no pod isolated in
+    both directions: then [no_cross] holds for every flow), [enforces_partial_g_inj] / [enforces_partial_inj] the
+    corollaries for an injective H.
 
-    The fragment [frag c] (boolean, evaluated by vm_compute in the Example of Props/C16.v):
-      (1) every rule (of the direction its policy affects) has at least one peer                       [K6c outside]
+    The fragment [frag_g c] (boolean, evaluated by vm_compute in the Examples of Props/C16.v):
+      (1) every rule (of a direction its policy affects) has at least one peer                         [K6c outside]
       (2) every peer is an ipBlock, a namespaceSelector-only peer, or a podSelector-only peer all of whose matching
           pods live in the policy's namespace; no namespaceSelector+podSelector peer                  [K6a, K6b outside]
       (3) at most one ipBlock per rule; 32-bit CIDRs; every exception is a strictly longer prefix than its block
           (so the block and an exception never print to the same ipset element, K5d)                      [K6d outside]
       (4) every port entry is numeric with protocol "tcp" or "udp"
-      (5) every policy affects exactly one direction (affects_in xor affects_eg) and no pod is isolated in both
-          directions (selected by an ingress-affecting and by an egress-affecting policy)                [K6e outside]
-      extra well-formedness: policy keys (name_namespace) distinct, pod keys distinct, pod addresses 32-bit and
-      pairwise distinct.
-    Premises on the flow: (6) [one_hooked]: no pair (pod owning the source, pod owning the destination) lives on one
-    node with the source egress-isolated and the destination ingress-isolated                            [K6g outside];
-    [flow_ok]: source and destination addresses are 32-bit.
+      well-formedness: policy keys (name_namespace) distinct, pod keys distinct, pod addresses 32-bit and pairwise
+      distinct.
+    Premises on the flow:
+      (5) [no_cross c f]: no policy selecting an egress-isolated pod that owns the source has an INGRESS rule matching
+          the flow (it selects the destination, a peer matches the source, the port matches), and symmetrically for
+          the destination's policies and their EGRESS rules                                             [K6e outside]
+          - implied, for every flow, by [frag]: every policy affects exactly one direction and no pod is selected by an
+          ingress-affecting and by an egress-affecting policy;
+      (6) [one_hooked c f]: no pair (pod owning the source, pod owning the destination) lives on one node with the
+          source egress-isolated and the destination ingress-isolated                                   [K6g outside];
+      [flow_ok f]: source and destination addresses are 32-bit.
 
-    Layout: the fragment; matching of set elements, ACCEPT rules and ports (prefix b_); what the compiled peer sets hold
-    (prefix p_); the shape of the kernel a Run leaves on an empty node, from the C15 lemmas (prefix a_); the packet walk chain by
-    chain; one node; both ends. *)
+    Layout: the fragment; matching of set elements, ACCEPT rules and ports (prefix b_); what the compiled peer sets
+    hold (prefix p_); the shape of the kernel a Run leaves on an empty node, from the C15 lemmas (prefix a_); the
+    packet walk chain by chain; one policy chain, one pod chain, one node; both ends; examples. *)
 From Coq Require Import List Ascii String NArith Bool Lia.
 From Galaxy.Base Require Import Strs.
 From Galaxy.Model Require Import Nets Netfilter Policy PolicySpec K8sPolicy.
@@ -53,9 +61,8 @@ Definition rule_frag (c : cluster) (x : netpol) (r : prule) : bool :=
   Nat.leb (List.length (filter is_block (pr_peers r))) 1 &&
   forallb (fun e => str_eqb (fst e) (L "tcp") || str_eqb (fst e) (L "udp")) (pr_ports r).
 
-(** (5a) one direction per policy; the rules of that direction are in the fragment *)
-Definition pol_frag (c : cluster) (x : netpol) : bool :=
-  xorb (affects_in x) (affects_eg x) &&
+(** the rules of the direction(s) the policy affects are in the fragment *)
+Definition pol_frag_g (c : cluster) (x : netpol) : bool :=
   forallb (rule_frag c x) (if affects_in x then np_ingress x else []) &&
   forallb (rule_frag c x) (if affects_eg x then np_egress x else []).
 
@@ -64,13 +71,32 @@ Definition pod_ips (c : cluster) : list N :=
 Fixpoint n_nodup (l : list N) : bool :=
   match l with [] => true | a :: r => negb (existsb (N.eqb a) r) && n_nodup r end.
 
-Definition frag (c : cluster) : bool :=
-  forallb (pol_frag c) (c_pols c) &&
-  (* (5b) no pod is isolated in both directions *)
-  forallb (fun p => negb (isolated_in c p && isolated_eg c p)) (c_pods c) &&
-  (* well-formed cluster: distinct policy keys, distinct pod keys, distinct 32-bit pod addresses *)
+(** the general fragment: (1)-(4) for every policy, and a well-formed cluster: distinct policy keys, distinct pod
+    keys, distinct 32-bit pod addresses.  Condition (5) is the premise [no_cross] on the flow. *)
+Definition frag_g (c : cluster) : bool :=
+  forallb (pol_frag_g c) (c_pols c) &&
   strs_nodup (map np_key (c_pols c)) && strs_nodup (map pod_key (c_pods c)) &&
   forallb (fun a => a <? two32) (pod_ips c) && n_nodup (pod_ips c).
+
+(** the simple fragment: moreover (5a) every policy affects exactly one direction and (5b) no pod is isolated in
+    both directions - then [no_cross] holds for every flow *)
+Definition frag (c : cluster) : bool :=
+  frag_g c &&
+  forallb (fun x => xorb (affects_in x) (affects_eg x)) (c_pols c) &&
+  forallb (fun p => negb (isolated_in c p && isolated_eg c p)) (c_pods c).
+
+(** (5) no cross-talk for this flow: no policy selecting an egress-isolated sender has an INGRESS rule that matches
+    the flow (destination selected by the policy, source among the rule's peers, port), and no policy selecting an
+    ingress-isolated receiver has an EGRESS rule that matches it *)
+Definition no_cross (c : cluster) (f : flow) : bool :=
+  forallb (fun s => negb (isolated_eg c s) ||
+     forallb (fun x => negb (applies x s && affects_in x && sel_at c x (f_dst f) &&
+                         existsb (fun r => port_ok r (f_proto f) (f_dport f) && peers_ok c x r (f_src f)) (np_ingress x)))
+             (c_pols c)) (pods_at c (f_src f)) &&
+  forallb (fun d => negb (isolated_in c d) ||
+     forallb (fun x => negb (applies x d && affects_eg x && sel_at c x (f_src f) &&
+                         existsb (fun r => port_ok r (f_proto f) (f_dport f) && peers_ok c x r (f_dst f)) (np_egress x)))
+             (c_pols c)) (pods_at c (f_dst f)).
 
 Definition flow_ok (f : flow) : bool := (f_src f <? two32) && (f_dst f <? two32).
 
@@ -645,15 +671,14 @@ Proof.
 Qed.
 
 Lemma frag_no_conflict : forall (H : str -> str) c,
-  forallb (pol_frag c) (c_pols c) = true -> conflicting_flags H c = false.
+  forallb (pol_frag_g c) (c_pols c) = true -> conflicting_flags H c = false.
 Proof.
   intros H c Hf. unfold conflicting_flags. apply existsb_false. intros cs Hcs.
   change (p_noconf (cs_elems cs)).
   unfold all_sets, compile in Hcs. apply in_flat_map in Hcs. destruct Hcs as [cp [Hcp Hcs]].
   apply in_map_iff in Hcp. destruct Hcp as [x [<- Hx]]. rewrite forallb_forall in Hf. specialize (Hf x Hx).
-  unfold pol_frag in Hf.
-  apply andb_true_iff in Hf. destruct Hf as [Hf Heg].
-  apply andb_true_iff in Hf. destruct Hf as [_ Hin].
+  unfold pol_frag_g in Hf.
+  apply andb_true_iff in Hf. destruct Hf as [Hin Heg].
   unfold cpolicy_sets, compile_one in Hcs. cbn [cp_sel cp_in cp_eg] in Hcs.
   destruct Hcs as [<-|Hcs].
   - cbn [cs_elems]. apply p_noconf_flags. intros e. apply p_ip_flags.
@@ -1343,7 +1368,7 @@ Variable n : str.
 Variable c : cluster.
 Variable f : flow.
 Hypothesis Hd : hash_distinct H n c = true.
-Hypothesis Hfrag : frag c = true.
+Hypothesis Hfrag : frag_g c = true.
 Hypothesis Hflow : flow_ok f = true.
 
 Let K := installed H n c.
@@ -1351,13 +1376,11 @@ Let pols := compile H c.
 Let ps := local_pods n c.
 
 Lemma frag_parts :
-  forallb (pol_frag c) (c_pols c) = true /\
-  (forall p, In p (c_pods c) -> isolated_in c p = true -> isolated_eg c p = true -> False) /\
+  forallb (pol_frag_g c) (c_pols c) = true /\
   forallb (fun a => a <? two32) (pod_ips c) = true /\ n_nodup (pod_ips c) = true.
 Proof.
-  unfold frag in Hfrag. rewrite !andb_true_iff in Hfrag. destruct Hfrag as [[[[[F1 F2] _] _] F5] F6].
-  repeat split; try assumption. intros p Hp E1 E2. rewrite forallb_forall in F2. specialize (F2 p Hp).
-  rewrite E1, E2 in F2. discriminate.
+  unfold frag_g in Hfrag. rewrite !andb_true_iff in Hfrag. destruct Hfrag as [[[[F1 _] _] F5] F6].
+  repeat split; assumption.
 Qed.
 
 Lemma flow_parts : f_src f < two32 /\ f_dst f < two32.
@@ -1365,7 +1388,7 @@ Proof. unfold flow_ok in Hflow. apply andb_true_iff in Hflow. destruct Hflow as 
 
 Lemma pod_ip_bound p a : In p (c_pods c) -> pod_ip p = Some a -> a < two32.
 Proof.
-  intros Hp Ea. destruct frag_parts as [_ [_ [F5 _]]]. rewrite forallb_forall in F5.
+  intros Hp Ea. destruct frag_parts as [_ [F5 _]]. rewrite forallb_forall in F5.
   apply N.ltb_lt. apply F5. exact (ips_of_in _ p a Hp Ea).
 Qed.
 
@@ -1377,7 +1400,7 @@ Lemma in_local p : In p (c_pods c) -> pod_node p = n -> In p ps.
 Proof. intros Hp E. unfold ps, local_pods. apply filter_In. split; [exact Hp|]. apply str_eqb_eq. exact E. Qed.
 
 Lemma pods_unique a p q : In p (c_pods c) -> In q (c_pods c) -> ip_is a p = true -> ip_is a q = true -> p = q.
-Proof. destruct frag_parts as [_ [_ [_ F6]]]. apply ips_unique. exact F6. Qed.
+Proof. destruct frag_parts as [_ [_ F6]]. apply ips_unique. exact F6. Qed.
 
 Lemma shape :
   (forall cs a, In cs (all_sets pols) ->
@@ -1403,11 +1426,10 @@ Proof.
   - unfold cpolicy_sets. right. apply in_or_app. destruct Hl as [E|E]; rewrite E; [left|right];
       apply in_flat_map; exists cr; split; assumption.
 Qed.
-Lemma sel_set_installed x a : In x (c_pols c) ->
-  set_match (k_sets K) (sel_set_name H x) a = existsb (applies x) (pods_at c a) \/ ~ a < two32.
+Lemma sel_set_installed x a : In x (c_pols c) -> a < two32 ->
+  set_match (k_sets K) (sel_set_name H x) a = sel_at c x a.
 Proof.
-  intros Hx. destruct (N.lt_ge_cases a two32) as [Ha|Ha]; [left|right; lia].
-  destruct shape as [S _].
+  intros Hx Ha. destruct shape as [S _].
   change (sel_set_name H x) with (cs_name (cp_sel (compile_one H c x))).
   rewrite (S (cp_sel (compile_one H c x)) a).
   - cbn [compile_one cp_sel cs_type cs_elems]. apply sel_set_match; [apply frag_parts|exact Ha].
@@ -1415,89 +1437,82 @@ Proof.
     left. reflexivity.
 Qed.
 
-Lemma pol_frag_of x : In x (c_pols c) -> pol_frag c x = true.
+Lemma pol_frag_of x : In x (c_pols c) -> pol_frag_g c x = true.
 Proof. intros Hx. destruct frag_parts as [F1 _]. rewrite forallb_forall in F1. apply F1. exact Hx. Qed.
 
-(** the chain of an egress-only policy that selects the sender *)
-Lemma egress_chain_accepts x s :
-  In x (c_pols c) -> In s (c_pods c) -> ip_is (f_src f) s = true -> applies x s = true -> affects_in x = false ->
-  affects_eg x = true /\
+Lemma existsb_and_const {A} (b : bool) (g : A -> bool) l : existsb (fun a => b && g a) l = b && existsb g l.
+Proof. destruct b; [reflexivity|]. cbn [andb]. induction l as [|a l IH]; [reflexivity|exact IH]. Qed.
+
+(** ONE POLICY CHAIN: the chain of policy x ACCEPTs the packet exactly when x affects ingress, selects the
+    destination and some ingress rule has a matching port and a peer matching the source - or x affects egress,
+    selects the source and some egress rule has a matching port and a peer matching the destination *)
+Lemma policy_chain_accepts x : In x (c_pols c) ->
   chain_accepts (k_sets K) (policy_chain_rules (compile_one H c x)) f =
-  existsb (fun r => port_ok r (f_proto f) (f_dport f) && peers_ok c x r (f_dst f)) (np_egress x).
+  affects_in x && (sel_at c x (f_dst f) &&
+     existsb (fun r => port_ok r (f_proto f) (f_dport f) && peers_ok c x r (f_src f)) (np_ingress x)) ||
+  affects_eg x && (sel_at c x (f_src f) &&
+     existsb (fun r => port_ok r (f_proto f) (f_dport f) && peers_ok c x r (f_dst f)) (np_egress x)).
 Proof.
-  intros Hx Hs Eip Eap Ein. pose proof (pol_frag_of x Hx) as PF. unfold pol_frag in PF.
-  rewrite !andb_true_iff in PF. destruct PF as [[PX _] PE]. rewrite Ein in PX.
-  assert (affects_eg x = true) as PX' by (destruct (affects_eg x); [reflexivity|discriminate]).
-  clear PX. rename PX' into PX.
-  split; [exact PX|]. rewrite PX in PE.
-  unfold policy_chain_rules, compile_one. cbn [cp_in cp_eg cp_np cp_sel cs_name]. rewrite Ein, PX.
-  cbn [flat_map app]. rewrite chain_accepts_flat_map.
-  apply existsb_map_idx. intros j r Hr Hin.
-  rewrite policy_rules_for_accepts. cbn [existsb]. rewrite orb_false_r.
-  rewrite forallb_forall in PE. pose proof (PE r Hr) as RF.
-  destruct flow_parts as [Fs Fd].
-  (* the selected-pods set holds the sender *)
-  destruct (sel_set_installed x (f_src f) Hx) as [E|E]; [|contradiction]. rewrite E.
-  assert (existsb (applies x) (pods_at c (f_src f)) = true) as Esel.
-  { apply existsb_exists. exists s. split; [|exact Eap]. unfold pods_at. apply filter_In. split; assumption. }
-  rewrite Esel. cbn [andb].
-  (* the peer sets *)
-  rewrite existsb_map_c.
-  rewrite (existsb_ext_in _ (fun cs => elems_match (cs_type cs) (cs_elems cs) (f_dst f))).
-  2:{ intros cs Hcs. apply (rule_sets_installed x (map_idx (peer_rule H c x (L "dip") (L "dnet")) 0 (np_egress x))
-                              (peer_rule H c x (L "dip") (L "dnet") j r)); try assumption.
-      right. unfold compile_one. cbn [cp_eg]. rewrite PX. reflexivity. }
-  rewrite peer_sets_match; [|exact RF|apply frag_parts|exact Fd].
-  (* the ports *)
-  cbn [peer_rule cr_tcp cr_udp]. rewrite ports_match_ok.
-  - apply andb_comm.
-  - unfold rule_frag in RF. rewrite !andb_true_iff in RF. apply RF.
+  intros Hx. pose proof (pol_frag_of x Hx) as PF. unfold pol_frag_g in PF. apply andb_true_iff in PF.
+  destruct PF as [PI PE]. destruct flow_parts as [Fs Fd].
+  unfold policy_chain_rules. rewrite chain_accepts_app. f_equal.
+  - (* ingress rules: source in the peer sets, destination in the selected set *)
+    unfold compile_one. cbn [cp_in cp_np cp_sel cs_name]. destruct (affects_in x) eqn:Ein; [|reflexivity].
+    cbn [andb]. rewrite chain_accepts_flat_map, <- existsb_and_const.
+    apply existsb_map_idx. intros j r Hr Hin.
+    rewrite policy_rules_for_accepts. cbn [existsb]. rewrite orb_false_r.
+    rewrite forallb_forall in PI. pose proof (PI r Hr) as RF.
+    rewrite (sel_set_installed x (f_dst f) Hx Fd).
+    rewrite existsb_map_c.
+    rewrite (existsb_ext_in _ (fun cs => elems_match (cs_type cs) (cs_elems cs) (f_src f))).
+    2:{ intros cs Hcs. apply (rule_sets_installed x (map_idx (peer_rule H c x (L "sip") (L "snet")) 0 (np_ingress x))
+                                (peer_rule H c x (L "sip") (L "snet") j r)); try assumption.
+        left. unfold compile_one. cbn [cp_in]. rewrite Ein. reflexivity. }
+    rewrite peer_sets_match; [|exact RF|apply frag_parts|exact Fs].
+    cbn [peer_rule cr_tcp cr_udp]. rewrite ports_match_ok.
+    + destruct (sel_at c x (f_dst f)), (peers_ok c x r (f_src f)), (port_ok r (f_proto f) (f_dport f)); reflexivity.
+    + unfold rule_frag in RF. rewrite !andb_true_iff in RF. apply RF.
+  - (* egress rules: source in the selected set, destination in the peer sets *)
+    unfold compile_one. cbn [cp_eg cp_np cp_sel cs_name]. destruct (affects_eg x) eqn:Eeg; [|reflexivity].
+    cbn [andb]. rewrite chain_accepts_flat_map, <- existsb_and_const.
+    apply existsb_map_idx. intros j r Hr Hin.
+    rewrite policy_rules_for_accepts. cbn [existsb]. rewrite orb_false_r.
+    rewrite forallb_forall in PE. pose proof (PE r Hr) as RF.
+    rewrite (sel_set_installed x (f_src f) Hx Fs).
+    rewrite existsb_map_c.
+    rewrite (existsb_ext_in _ (fun cs => elems_match (cs_type cs) (cs_elems cs) (f_dst f))).
+    2:{ intros cs Hcs. apply (rule_sets_installed x (map_idx (peer_rule H c x (L "dip") (L "dnet")) 0 (np_egress x))
+                                (peer_rule H c x (L "dip") (L "dnet") j r)); try assumption.
+        right. unfold compile_one. cbn [cp_eg]. rewrite Eeg. reflexivity. }
+    rewrite peer_sets_match; [|exact RF|apply frag_parts|exact Fd].
+    cbn [peer_rule cr_tcp cr_udp]. rewrite ports_match_ok.
+    + destruct (sel_at c x (f_src f)), (peers_ok c x r (f_dst f)), (port_ok r (f_proto f) (f_dport f)); reflexivity.
+    + unfold rule_frag in RF. rewrite !andb_true_iff in RF. apply RF.
 Qed.
 
-Lemma ingress_chain_accepts x d :
-  In x (c_pols c) -> In d (c_pods c) -> ip_is (f_dst f) d = true -> applies x d = true -> affects_eg x = false ->
-  affects_in x = true /\
-  chain_accepts (k_sets K) (policy_chain_rules (compile_one H c x)) f =
-  existsb (fun r => port_ok r (f_proto f) (f_dport f) && peers_ok c x r (f_src f)) (np_ingress x).
+Hypothesis Hnc : no_cross c f = true.
+
+Lemma sel_at_self x p a : In p (c_pods c) -> ip_is a p = true -> applies x p = true -> sel_at c x a = true.
 Proof.
-  intros Hx Hs Eip Eap Eeg. pose proof (pol_frag_of x Hx) as PF. unfold pol_frag in PF.
-  rewrite !andb_true_iff in PF. destruct PF as [[PX PI] _]. rewrite Eeg in PX.
-  assert (affects_in x = true) as PX' by (destruct (affects_in x); [reflexivity|discriminate]).
-  split; [exact PX'|]. rewrite PX' in PI.
-  unfold policy_chain_rules, compile_one. cbn [cp_in cp_eg cp_np cp_sel cs_name]. rewrite Eeg, PX'.
-  cbn [flat_map]. rewrite app_nil_r. rewrite chain_accepts_flat_map.
-  apply existsb_map_idx. intros j r Hr Hin.
-  rewrite policy_rules_for_accepts. cbn [existsb]. rewrite orb_false_r.
-  rewrite forallb_forall in PI. pose proof (PI r Hr) as RF.
-  destruct flow_parts as [Fs Fd].
-  destruct (sel_set_installed x (f_dst f) Hx) as [E|E]; [|contradiction]. rewrite E.
-  assert (existsb (applies x) (pods_at c (f_dst f)) = true) as Esel.
-  { apply existsb_exists. exists d. split; [|exact Eap]. unfold pods_at. apply filter_In. split; assumption. }
-  rewrite Esel, andb_true_r.
-  rewrite existsb_map_c.
-  rewrite (existsb_ext_in _ (fun cs => elems_match (cs_type cs) (cs_elems cs) (f_src f))).
-  2:{ intros cs Hcs. apply (rule_sets_installed x (map_idx (peer_rule H c x (L "sip") (L "snet")) 0 (np_ingress x))
-                              (peer_rule H c x (L "sip") (L "snet") j r)); try assumption.
-      left. unfold compile_one. cbn [cp_in]. rewrite PX'. reflexivity. }
-  rewrite peer_sets_match; [|exact RF|apply frag_parts|exact Fs].
-  cbn [peer_rule cr_tcp cr_udp]. rewrite ports_match_ok.
-  - apply andb_comm.
-  - unfold rule_frag in RF. rewrite !andb_true_iff in RF. apply RF.
+  intros Hp Eip Eap. unfold sel_at. apply existsb_exists. exists p. split; [|exact Eap].
+  unfold pods_at. apply filter_In. split; assumption.
 Qed.
 
-(** the pod chain of an egress-isolated sender computes egress_ok; of an ingress-isolated receiver, ingress_ok *)
+(** ONE POD CHAIN: the pod chain of an egress-isolated sender computes egress_ok; of an ingress-isolated receiver,
+    ingress_ok (the rules of the other direction do not match the flow: [no_cross]) *)
 Lemma pod_accepts_eg s : In s (c_pods c) -> ip_is (f_src f) s = true ->
   isolated_eg c s = true -> pod_accepts K f pols s = egress_ok c s f.
 Proof.
   intros Hs Eip Eiso. unfold egress_ok. rewrite Eiso. cbn [negb orb].
   unfold pod_accepts, pols, compile. rewrite existsb_map_c. apply existsb_ext_in. intros x Hx.
   unfold selects. cbn [compile_one cp_np]. destruct (applies x s) eqn:Eap; [|reflexivity]. cbn [andb].
-  assert (affects_in x = false) as Ein.
-  { destruct (affects_in x) eqn:E; [|reflexivity]. exfalso.
-    destruct frag_parts as [_ [F2 _]]. apply (F2 s Hs); [|exact Eiso].
-    unfold isolated_in. apply existsb_exists. exists x. split; [exact Hx|]. rewrite Eap, E. reflexivity. }
-  destruct (egress_chain_accepts x s Hx Hs Eip Eap Ein) as [Eeg E].
-  fold (compile_one H c x). rewrite E, Eeg. reflexivity.
+  fold (compile_one H c x). rewrite (policy_chain_accepts x Hx).
+  rewrite (sel_at_self x s (f_src f) Hs Eip Eap). cbn [andb].
+  unfold no_cross in Hnc. apply andb_true_iff in Hnc. destruct Hnc as [N1 _].
+  rewrite forallb_forall in N1. specialize (N1 s (proj2 (filter_In _ _ _) (conj Hs Eip))).
+  rewrite Eiso in N1. cbn [negb orb] in N1. rewrite forallb_forall in N1. specialize (N1 x Hx).
+  rewrite Eap in N1. cbn [andb] in N1. apply negb_true_iff in N1. rewrite <- !andb_assoc in N1. rewrite N1.
+  reflexivity.
 Qed.
 
 Lemma pod_accepts_in d : In d (c_pods c) -> ip_is (f_dst f) d = true ->
@@ -1506,12 +1521,13 @@ Proof.
   intros Hs Eip Eiso. unfold ingress_ok. rewrite Eiso. cbn [negb orb].
   unfold pod_accepts, pols, compile. rewrite existsb_map_c. apply existsb_ext_in. intros x Hx.
   unfold selects. cbn [compile_one cp_np]. destruct (applies x d) eqn:Eap; [|reflexivity]. cbn [andb].
-  assert (affects_eg x = false) as Eeg.
-  { destruct (affects_eg x) eqn:E; [|reflexivity]. exfalso.
-    destruct frag_parts as [_ [F2 _]]. apply (F2 d Hs); [exact Eiso|].
-    unfold isolated_eg. apply existsb_exists. exists x. split; [exact Hx|]. rewrite Eap, E. reflexivity. }
-  destruct (ingress_chain_accepts x d Hx Hs Eip Eap Eeg) as [Ein E].
-  fold (compile_one H c x). rewrite E, Ein. reflexivity.
+  fold (compile_one H c x). rewrite (policy_chain_accepts x Hx).
+  rewrite (sel_at_self x d (f_dst f) Hs Eip Eap). cbn [andb].
+  unfold no_cross in Hnc. apply andb_true_iff in Hnc. destruct Hnc as [_ N2].
+  rewrite forallb_forall in N2. specialize (N2 d (proj2 (filter_In _ _ _) (conj Hs Eip))).
+  rewrite Eiso in N2. cbn [negb orb] in N2. rewrite forallb_forall in N2. specialize (N2 x Hx).
+  rewrite Eap in N2. cbn [andb] in N2. apply negb_true_iff in N2. rewrite <- !andb_assoc in N2. rewrite N2.
+  rewrite orb_false_r. reflexivity.
 Qed.
 
 (** the outcomes of the two hook chains *)
@@ -1622,12 +1638,12 @@ Proof.
   rewrite IH; [reflexivity|]. intros b Hb. apply E. right. exact Hb.
 Qed.
 
-Theorem enforces_partial_l (H : str -> str) (c : cluster) (f : flow) :
+Theorem enforces_partial_g_l (H : str -> str) (c : cluster) (f : flow) :
   (forall n, In n (flow_nodes c f) -> hash_distinct H n c = true) ->
-  frag c = true -> flow_ok f = true -> one_hooked c f = true ->
+  frag_g c = true -> flow_ok f = true -> no_cross c f = true -> one_hooked c f = true ->
   galaxy_allows H c f = k8s_allows c f.
 Proof.
-  intros Hd Hfrag Hflow Hone. unfold galaxy_allows, allows_on.
+  intros Hd Hfrag Hflow Hnc Hone. unfold galaxy_allows, allows_on.
   rewrite (forallb_ext_in_c _ (fun n =>
      forallb (fun s => negb (str_eqb (pod_node s) n) || egress_ok c s f) (pods_at c (f_src f)) &&
      forallb (fun d => negb (str_eqb (pod_node d) n) || ingress_ok c d f) (pods_at c (f_dst f)))).
@@ -1647,6 +1663,43 @@ Proof.
     + intros d Hd'. rewrite (HI d Hd'). apply orb_true_r.
 Qed.
 
+(** the simple fragment implies the general one and excludes cross-talk for every flow *)
+Lemma frag_frag_g c : frag c = true -> frag_g c = true.
+Proof. unfold frag. rewrite !andb_true_iff. intros [[G _] _]. exact G. Qed.
+
+Lemma frag_no_cross c f : frag c = true -> no_cross c f = true.
+Proof.
+  unfold frag. rewrite !andb_true_iff. intros [[_ _] F2]. rewrite forallb_forall in F2.
+  assert (forall p x, In p (c_pods c) -> In x (c_pols c) -> applies x p = true ->
+            isolated_eg c p = true -> affects_in x = true -> False) as K1.
+  { intros p x Hp Hx Eap Eeg Ein. specialize (F2 p Hp). rewrite Eeg, andb_true_r in F2.
+    apply negb_true_iff in F2. unfold isolated_in in F2. rewrite existsb_false in F2. specialize (F2 x Hx).
+    rewrite Eap, Ein in F2. discriminate. }
+  assert (forall p x, In p (c_pods c) -> In x (c_pols c) -> applies x p = true ->
+            isolated_in c p = true -> affects_eg x = true -> False) as K2.
+  { intros p x Hp Hx Eap Ein Eeg. specialize (F2 p Hp). rewrite Ein in F2. cbn [andb] in F2.
+    apply negb_true_iff in F2. unfold isolated_eg in F2. rewrite existsb_false in F2. specialize (F2 x Hx).
+    rewrite Eap, Eeg in F2. discriminate. }
+  unfold no_cross. apply andb_true_iff. split; apply forallb_forall; intros p Hp;
+    unfold pods_at in Hp; apply filter_In in Hp; destruct Hp as [Hp _].
+  - destruct (isolated_eg c p) eqn:Eiso; [|reflexivity]. cbn [negb orb]. apply forallb_forall. intros x Hx.
+    destruct (applies x p) eqn:Eap; [|reflexivity]. destruct (affects_in x) eqn:Ein; [|reflexivity].
+    exfalso. exact (K1 p x Hp Hx Eap Eiso Ein).
+  - destruct (isolated_in c p) eqn:Eiso; [|reflexivity]. cbn [negb orb]. apply forallb_forall. intros x Hx.
+    destruct (applies x p) eqn:Eap; [|reflexivity]. destruct (affects_eg x) eqn:Eeg; [|reflexivity].
+    exfalso. exact (K2 p x Hp Hx Eap Eiso Eeg).
+Qed.
+
+Theorem enforces_partial_l (H : str -> str) (c : cluster) (f : flow) :
+  (forall n, In n (flow_nodes c f) -> hash_distinct H n c = true) ->
+  frag c = true -> flow_ok f = true -> one_hooked c f = true ->
+  galaxy_allows H c f = k8s_allows c f.
+Proof.
+  intros Hd Hfrag Hflow Hone. apply enforces_partial_g_l; try assumption.
+  - apply frag_frag_g. exact Hfrag.
+  - apply frag_no_cross. exact Hfrag.
+Qed.
+
 (** an injective hash does not collide on the keys of a well-formed cluster *)
 Lemma NoDup_map_filter {A B} (g : A -> B) (p : A -> bool) l : NoDup (map g l) -> NoDup (map g (filter p l)).
 Proof.
@@ -1656,10 +1709,10 @@ Proof.
   apply in_map_iff. exists x. split; [exact E|apply Hx].
 Qed.
 
-Lemma frag_hash_distinct (H : str -> str) n c : (forall a b, H a = H b -> a = b) -> frag c = true ->
+Lemma frag_hash_distinct (H : str -> str) n c : (forall a b, H a = H b -> a = b) -> frag_g c = true ->
   hash_distinct H n c = true.
 Proof.
-  intros Hinj Hf. unfold frag in Hf. rewrite !andb_true_iff in Hf. destruct Hf as [[[[[_ _] F3] F4] _] _].
+  intros Hinj Hf. unfold frag_g in Hf. rewrite !andb_true_iff in Hf. destruct Hf as [[[[_ F3] F4] _] _].
   apply strs_nodup_NoDup in F3. apply strs_nodup_NoDup in F4.
   unfold hash_distinct. apply andb_true_iff. split; apply strs_nodup_NoDup.
   - rewrite <- (map_map np_key H). apply FinFun.Injective_map_NoDup; [exact Hinj|exact F3].
@@ -1667,12 +1720,21 @@ Proof.
     unfold local_pods. apply NoDup_map_filter. exact F4.
 Qed.
 
+Theorem enforces_partial_g_inj (H : str -> str) : (forall a b, H a = H b -> a = b) ->
+  forall (c : cluster) (f : flow), frag_g c = true -> flow_ok f = true -> no_cross c f = true ->
+  one_hooked c f = true -> galaxy_allows H c f = k8s_allows c f.
+Proof.
+  intros Hinj c f Hfrag Hflow Hnc Hone. apply enforces_partial_g_l; try assumption.
+  intros n _. apply frag_hash_distinct; assumption.
+Qed.
+
 Theorem enforces_partial_inj (H : str -> str) : (forall a b, H a = H b -> a = b) ->
   forall (c : cluster) (f : flow), frag c = true -> flow_ok f = true -> one_hooked c f = true ->
   galaxy_allows H c f = k8s_allows c f.
 Proof.
-  intros Hinj c f Hfrag Hflow Hone. apply enforces_partial_l; try assumption.
-  intros n _. apply frag_hash_distinct; assumption.
+  intros Hinj c f Hfrag Hflow Hone. apply enforces_partial_g_inj; try assumption.
+  - apply frag_frag_g. exact Hfrag.
+  - apply frag_no_cross. exact Hfrag.
 Qed.
 
 (** ---------------------------------------------------------------- the fragment is inhabited *)
@@ -1704,4 +1766,26 @@ Lemma enforces_partial_example_l :
   (forallb (fun f => flow_ok f && one_hooked xp_c f) xp_flows = true) /\
   (map (k8s_allows xp_c) xp_flows = [true; false; true; false; true; false]) /\
   (map (galaxy_allows Hx xp_c) xp_flows = [true; false; true; false; true; false]).
+Proof. vm_compute. repeat split. Qed.
+
+(** the general fragment: "web-both" affects BOTH directions of the app=web pods (ingress tcp/80 from app=cli, egress
+    tcp/5432 to app=db), "db-in" lets the app=web pods reach the db; the cluster is outside the simple fragment,
+    the five flows below satisfy [no_cross] and [one_hooked]; the K6e witness does not satisfy [no_cross] *)
+Definition xq_c := mkCluster nss2 [web; web2; cli1; xp_bat; xp_db]
+  [mkPol (L "ns1") (L "web-both") selweb true true
+     [mkPRule [(L "tcp", 80)] [PeerPod selcli]] [mkPRule [(L "tcp", 5432)] [PeerPod [(L "app", L "db")]]];
+   mkPol (L "ns1") (L "db-in") [(L "app", L "db")] true false [mkPRule [(L "tcp", 5432)] [PeerPod selweb]] []].
+Definition xq_flows :=
+  [mkFlow (K8sPolicyP.ip4 10 0 0 3) (K8sPolicyP.ip4 10 0 0 1) (L "tcp") 80;        (* cli -> web: allowed *)
+   mkFlow (K8sPolicyP.ip4 10 0 0 2) (K8sPolicyP.ip4 10 0 0 4) (L "tcp") 5432;      (* web2 (node2) -> db (node1): allowed *)
+   mkFlow (K8sPolicyP.ip4 10 0 0 2) (K8sPolicyP.ip4 10 0 0 4) (L "tcp") 80;        (* wrong port: denied *)
+   mkFlow (K8sPolicyP.ip4 10 0 0 2) (K8sPolicyP.ip4 8 8 8 8) (L "tcp") 443;        (* web2 -> outside: denied *)
+   mkFlow (K8sPolicyP.ip4 10 0 0 1) (K8sPolicyP.ip4 10 0 0 2) (L "tcp") 80].       (* web -> web2: denied *)
+
+Lemma enforces_partial_example_g_l :
+  (frag_g xq_c = true) /\ (frag xq_c = false) /\
+  (forallb (fun f => flow_ok f && no_cross xq_c f && one_hooked xq_c f) xq_flows = true) /\
+  (map (k8s_allows xq_c) xq_flows = [true; true; false; false; false]) /\
+  (map (galaxy_allows Hx xq_c) xq_flows = [true; true; false; false; false]) /\
+  (no_cross Ce fe = false).
 Proof. vm_compute. repeat split. Qed.
